@@ -11,7 +11,7 @@ from gens import atoms_of, base_cells, make_supercell, tables
 from gmat import gmat, run_solver
 from permcorr import fake_cutoff, impl_cpt_labels, random_near
 
-UNITS = ["EigStruct", "SolverStruct", "IndepGen", "ShapesO1", "ShapesBasis", "ShapesAuxO1", "ShapesAuxEig", "SkelBasis", "SkelEig", "SkelIdx", "ShapesPerm", "SkelPerm", "ShapesApi", "SkelApi"]
+UNITS = ["EigStruct", "SolverStruct", "IndepGen", "ShapesO1", "ShapesBasis", "ShapesAuxO1", "ShapesAuxEig", "SkelBasis", "SkelEig", "SkelIdx", "ShapesPerm", "SkelPerm", "ShapesApi", "SkelApi", "ShapesSpg", "ShapesReps", "SkelSpg"]
 PROPS = ["props/C09.v"]
 ASSUMPTIONS = ["numpy eigh returns orthonormal eigenvectors (conformance-checked: every solver output of this run is tested for E^T E = I)", "1e-8 tolerance on |M^T M - I|max"]
 
